@@ -125,8 +125,8 @@ def shapes(chk, tier, rnd):
         (psim, layered, [40, 100, 200], {}),
         (lookups, [std] + strong, [0, 30], {}),
         (plain + hashes, strong_zk, [0], {}),
-        (hashes, [c for c in strong if c["nch"] == 3], [0, 60], {}),
-        (plain, weak, [0, 100], {}),
+        (hashes, [c for c in strong if c["nch"] == 3], [0, 60], {"keccak": True}),
+        (plain, weak, [0, 100], {"nch": 3, "cap": 1}),
     ]
     if thorough:
         more = []
